@@ -40,7 +40,8 @@ CompletionMatches(x) == (x.cause = "accept" /\ Decode(E.bytes).t = "wrq" /\ E.tr
 Verdict ==
   LET x == Exp IN
   IF ~ReplyMatches(x)
-  THEN CASE x.cause = "badpath" -> "C03:ReplyForBadPath"
+  THEN CASE E.probe -> "C05:ProbeNotServed"
+         [] x.cause = "badpath" -> "C03:ReplyForBadPath"
          [] x.cause \in {"ro", "exists", "missing"} -> "C06:Refusal"
          [] x.cause = "options" -> "C09,C05:UnhonourableAcknowledged"
          [] x.cause = "accept" /\ x.reply.k = "oack" -> "C09:Oack"
@@ -61,8 +62,12 @@ TReq ==
   /\ l <= N /\ E.e = "req"
   /\ LET v == Verdict IN (v # "ok") => PrintT(<<"DEV", l, v>>)
   /\ UNCHANGED env /\ l' = l + 1
-TOther == l <= N /\ E.e \notin {"cfg", "req"} /\ UNCHANGED env /\ l' = l + 1
-TraceNext == TCfg \/ TReq \/ TOther
+TDead ==     \* the server process is gone: nothing explains that
+  /\ l <= N /\ E.e = "dead"
+  /\ PrintT(<<"DEV", l, "C05:ListenerDied">>)
+  /\ UNCHANGED env /\ l' = l + 1
+TOther == l <= N /\ E.e \notin {"cfg", "req", "dead"} /\ UNCHANGED env /\ l' = l + 1
+TraceNext == TCfg \/ TReq \/ TDead \/ TOther
 TraceSpec == TraceInit /\ [][TraceNext]_<<l, env>>
 TraceAccepted ==
   LET d == TLCGet("stats").diameter IN
